@@ -60,6 +60,28 @@ def run(ctx):
                 except Break as b:
                     ctx.breaks.append(b)
         ctx.cov["concurrent_histories"] = nh
+        # check-and-act in ONE transaction: the lock/name traces of requests on servers recovered from crash images
+        # (a creation that is handed a half-freed inode aborts, helps freeing and starts over: everything must be re-checked)
+        cr = os.path.join(ctx.scratch, "crashlocks.txt")
+        rc, err = ctx.harness(["crash", "-seed", str(ctx.seed), "-mix", "free", "-disk", "40000", "-ops", "22", "-locks"] +
+                              (["-workloads", "4", "-images", "200"] if ctx.tier == "thorough" else ["-workloads", "1", "-images", "50"]), cr, timeout=3000)
+        if rc != 0:
+            ctx.breaks.append(Break("correspondence", "harness crash -locks failed to run", err[-2000:]))
+        elif ok_drv:
+            try:
+                crl = open(cr).read().splitlines()
+                lm = conclib.check_locks(ctx, crl, "C03", "recovered")
+                retry = len([l for l in crl if l.startswith("# LOCKS create") and " x " in l])
+                ctx.cov["creations_through_abort_help_retry_path"] = retry
+                for x in lm[:2]:
+                    parts = x.split(" :: ")
+                    ctx.breaks.append(Break("correspondence", "a recorded transaction breaks the discipline: " + parts[0][:200], parts[-1][:400]))
+                    key = "check-and-insert-not-atomic" if "without having been looked up" in x else "lock-discipline"
+                    ctx.add_violation(key + ":" + parts[1].split()[1], parts[0][:300],
+                                      {"how": "harness crash -mix free -locks (VERIF_SEED=%d): lock and name events of one request on a server recovered from a crash image" % ctx.seed,
+                                       "trace": parts[-1][:3000]})
+            except Break as b:
+                ctx.breaks.append(b)
     vlib.finish(
         ctx, "proof",
         "theorems: strict two-phase locking over an exclusive lock manager orders conflicting transactions by commit point, and commit order respects real time. The hypotheses "
